@@ -190,6 +190,9 @@ func VHarness_C02_LeaderCommit() {
 		Reject: vBool("reject"), Hint: vU64("hint")}
 	// an acknowledgement never claims more than the leader has
 	vAssume(m.LogIndex <= p.log.last())
+	if !m.Reject {
+		p.ackFrom, p.ackIndex = m.From, m.LogIndex
+	}
 	peer := Peer{raft: r}
 	err := peer.Handle(m)
 	vAssert(err == nil, "noerr")
